@@ -31,14 +31,22 @@ theorem fetch_params :
     fetchParams.maxIbdPeers = 1 ∧ fetchParams.ibdPeerTimeout = 60 ∧ fetchParams.switchToActive = 300 ∧
     fetchParams.emptyBackoff = 60 := by decide
 
+/-- Boolean functions of integer comparisons: equal when they agree as propositions (robust against reordering of the
+operands of `and` / `or` and against equivalent ways of writing a comparison) -/
+macro "bool_arith" : tactic => `(tactic| first
+  | (simp; done)
+  | (rw [Bool.eq_iff_iff]; simp; omega)
+  | (rw [Bool.eq_iff_iff]; simp <;> omega)
+  | (rw [Bool.eq_iff_iff]; simp; grind)
+  | grind)
+
 theorem should_fetch_eq (now headTs startedAt : Int) :
     Gen.should_fetch now headTs startedAt = shouldFetch fetchParams headTs startedAt now := by
   unfold Gen.should_fetch shouldFetch fetchParams
   have h : Int.fmod now (60 : Int) = now % 60 := Int.fmod_eq_emod_of_nonneg now (by decide)
   first
-    | (simp only [h]; done)
-    | (simp [h]; done)
-    | (rw [h]; rfl)
+    | (simp only [h, Gen.SWITCH_TO_ACTIVE_MODE_TIMEOUT]; done)
+    | (simp only [h, Gen.SWITCH_TO_ACTIVE_MODE_TIMEOUT]; bool_arith)
 
 theorem inventory_batch_handled_eq (p : PeerSt) :
     Gen.inventory_batch_handled p.waitingForInventory p.pendingInventory.isEmpty = batchHandled p := by
@@ -49,17 +57,13 @@ theorem ibd_candidate_ok_eq (now lastEmpty : Int) :
     Gen.ibd_candidate_ok now lastEmpty = candidateOk fetchParams now lastEmpty := by
   unfold Gen.ibd_candidate_ok candidateOk fetchParams
   first
-    | rfl
-    | (simp; done)
-    | (by_cases h : now > lastEmpty + (Gen.EMPTY_INVENTORY_BACKOFF : Int) <;> simp [h] <;> omega)
+    | (simp only [Gen.EMPTY_INVENTORY_BACKOFF]; done)
+    | (simp only [Gen.EMPTY_INVENTORY_BACKOFF]; bool_arith)
 
 theorem still_fetching_eq (now t : Int) (handled : Bool) :
     Gen.still_fetching now t handled = stillFetching now t handled := by
   unfold Gen.still_fetching stillFetching
-  first
-    | rfl
-    | (cases handled <;> simp; done)
-    | (cases handled <;> by_cases h : now < t <;> simp [h] <;> omega)
+  cases handled <;> bool_arith
 
 /-- the model's candidate list is the selection by the translated filter from the active peers, in connection order -/
 theorem candidates_as_translated (n : Node) (f : FetchSt) (now : Int) :
